@@ -10,7 +10,8 @@ def load():
     ns = types.SimpleNamespace()
     import evo
     from evo.core import trajectory, sync, metrics, filters, geometry, result
-    from evo.core import lie_algebra
+    from evo.core import lie_algebra, transformations
+    ns.transformations = transformations
     from evo.tools import pandas_bridge, file_interface
     from evo import main_ape, main_rpe
     ns.evo = evo
